@@ -1,0 +1,85 @@
+// Copyright 2021-present The Atlas Authors. All rights reserved.
+// This source code is licensed under the Apache 2.0 license found
+// in the LICENSE file in the root directory of this source tree.
+
+//go:build verif
+
+package migrate
+
+import (
+	"fmt"
+	"os"
+	"path/filepath"
+	"strconv"
+	"strings"
+	"sync"
+	"syscall"
+)
+
+// VerifHook, if set, is called at every simulation point (in-process engines).
+var VerifHook func(point string)
+
+var verif struct {
+	once             sync.Once
+	mu               sync.Mutex
+	hits             map[string]int
+	crashAt, pauseAt string
+	crashN, pauseN   int
+	pauseDir, trace  string
+}
+
+func verifInit() {
+	verif.hits = make(map[string]int)
+	// VERIF_CRASH_AT=<point>:<n> kills the process (SIGKILL: no deferred code, no flush,
+	// no connection close) at the n-th hit of <point>.
+	if v := os.Getenv("VERIF_CRASH_AT"); v != "" {
+		if i := strings.LastIndexByte(v, ':'); i > 0 {
+			verif.crashAt = v[:i]
+			verif.crashN, _ = strconv.Atoi(v[i+1:])
+		}
+	}
+	// VERIF_PAUSE_AT=<point>@<n>@<dir> parks the process at the n-th hit of <point>: it
+	// announces the hit by writing to the FIFO <dir>/hit and blocks reading the FIFO <dir>/go.
+	if p := strings.SplitN(os.Getenv("VERIF_PAUSE_AT"), "@", 3); len(p) == 3 {
+		verif.pauseAt, verif.pauseDir = p[0], p[2]
+		verif.pauseN, _ = strconv.Atoi(p[1])
+	}
+	// VERIF_TRACE=<file> appends every point hit to a file (reach measurement).
+	verif.trace = os.Getenv("VERIF_TRACE")
+}
+
+// VerifPoint is the exported form of simPoint for other packages of this module
+// built with the same tag.
+func VerifPoint(point string) { simPoint(point) }
+
+func simPoint(point string) {
+	verif.once.Do(verifInit)
+	if VerifHook != nil {
+		VerifHook(point)
+	}
+	verif.mu.Lock()
+	verif.hits[point]++
+	n := verif.hits[point]
+	verif.mu.Unlock()
+	if verif.trace != "" {
+		if f, err := os.OpenFile(verif.trace, os.O_APPEND|os.O_CREATE|os.O_WRONLY, 0o644); err == nil {
+			fmt.Fprintf(f, "%s %d\n", point, n)
+			f.Close()
+		}
+	}
+	if verif.pauseAt == point && verif.pauseN == n {
+		if f, err := os.OpenFile(filepath.Join(verif.pauseDir, "hit"), os.O_WRONLY, 0); err == nil {
+			fmt.Fprintf(f, "%s %d\n", point, n)
+			f.Close()
+		}
+		if f, err := os.OpenFile(filepath.Join(verif.pauseDir, "go"), os.O_RDONLY, 0); err == nil {
+			buf := make([]byte, 16)
+			f.Read(buf)
+			f.Close()
+		}
+	}
+	if verif.crashAt == point && verif.crashN == n {
+		syscall.Kill(os.Getpid(), syscall.SIGKILL)
+		select {} // never proceed past a crash point
+	}
+}
